@@ -384,6 +384,59 @@ def install(eng):
                 raise PathEnd('unwind', 'fold')
     m(r'^<.* as (std::iter::|core::iter::)?Iterator>::fold$', m_fold, fallback=True)
 
+    def m_sum(eng, args, ctx):
+        it = args[0]
+        dty = norm_ty(ctx.dest_ty) if ctx.dest_ty else 'usize'
+        w = INT_BITS.get(dty)
+        if w is None:
+            raise Unsupported('sum into ' + dty)
+        acc = bv(0, w)
+        n = 0
+        while True:
+            v = it_next(eng, it, ctx.frame)
+            if v is None:
+                return acc
+            while isinstance(v, Ref):
+                v = v.cell.get(eng)
+            # debug builds panic on overflow, release builds wrap: the wrapped value is what both agree on when no overflow occurs
+            acc = z3.simplify(acc + v)
+            n += 1
+            if n > max(4, getattr(eng, 'loop_bound', 64)):
+                raise PathEnd('unwind', 'sum')
+    m(r'^<.* as (std::iter::|core::iter::)?Iterator>::sum$', m_sum, fallback=True)
+
+    # std::cell::Cell<T>: a plain slot (single threaded)
+    class CellV:
+        rust_ty = 'Cell'
+
+        def __init__(self, inner):
+            self.inner = inner
+
+        def copy_value(self, eng):
+            return CellV(Cell(eng.copy_value(self.inner.get(eng))))
+
+    def mat_cellv(eng, ty, backing):
+        t = norm_ty(ty)
+        return CellV(Cell(Lazy(ty_args(t)[0], backing.child('cell'))))
+    eng.materialiser(r'^(std::cell::|core::cell::)?Cell<.*>$', mat_cellv)
+
+    def cellv(eng, v):
+        while isinstance(v, Ref):
+            v = v.cell.get(eng)
+        if not isinstance(v, CellV):
+            raise Unsupported('expected Cell<_>, got ' + type(v).__name__)
+        return v
+    m(r'^(std::cell::|core::cell::)?Cell::new$', lambda e, a, c: CellV(Cell(a[0])))
+    m(r'^(std::cell::|core::cell::)?Cell::get$', lambda e, a, c: e.copy_value(cellv(e, a[0]).inner.get(e)))
+    m(r'^(std::cell::|core::cell::)?Cell::set$', lambda e, a, c: (cellv(e, a[0]).inner.set(e, a[1]), UNIT)[1])
+
+    def m_cell_replace(eng, args, ctx):
+        cv = cellv(eng, args[0])
+        old = cv.inner.get(eng)
+        cv.inner.set(eng, args[1])
+        return old
+    m(r'^(std::cell::|core::cell::)?Cell::replace$', m_cell_replace)
+
     def m_try_fold(eng, args, ctx):
         it, acc, f = args
         oty = norm_ty(ctx.dest_ty) if ctx.dest_ty else 'Option'
